@@ -14,6 +14,7 @@ import (
 	"flag"
 	"fmt"
 	"os"
+	"runtime/debug"
 	"strings"
 	"time"
 
@@ -33,6 +34,7 @@ const prelude = `
 var __util = require("util"), __bufmod = require("buffer"), __urlmod = require("url"), __proc = require("process");
 var __live = [];   // timer handles created by value factories, cleared after each case
 var __slots = [];  // objects of the current session: receivers and results of earlier steps
+var __stale = [];  // timer handles that are kept across cases and across Terminate()/Start() of the loop by the host
 function __resetSlots(adv) {
   var p = new URLSearchParams("a=1&b=2&a=3&c=4");
   var u = new URL("http://u:p@a.b:81/c/d?e=f&g=h&e=i#j");
@@ -108,6 +110,20 @@ var __vals = [
   function () { return Buffer; }, function () { return URL; }, function () { return Buffer.prototype; },
   function () { return URLSearchParams.prototype; }, function () { return process.env; }, function () { return console; },
   function () { return arguments; }, function () { return globalThis; },
+  // handles that outlive the case that made them (and, now and then, a Terminate()/Start() of the loop by the host)
+  function () { if (__stale.length < 8) __stale.push(setInterval(function () {}, 1e9)); return __stale[__stale.length - 1]; },
+  function () { if (__stale.length < 8) __stale.push(setTimeout(function () {}, 1e9)); return __stale[0]; },
+  function () { return __stale.length ? __stale[(__stale.length * 7) % __stale.length] : undefined; },
+  function () { return __stale.length > 1 ? __stale[1] : undefined; },
+  // violations of the iterator protocol
+  function () { var o = {}; o[Symbol.iterator] = function () { return {}; }; return o; },
+  function () { var o = {}; o[Symbol.iterator] = function () { return { next: 1 }; }; return o; },
+  function () { var o = {}; o[Symbol.iterator] = function () { return { next: console.log }; }; return o; },
+  function () { var o = {}; o[Symbol.iterator] = function () { return 7; }; return o; },
+  function () { var t = {}; t[Symbol.iterator] = function () { return {}; }; return [t, ["a", "b"]]; },
+  // native functions as callbacks / foreign objects that are expensive to copy
+  function () { return Array.prototype.push; }, function () { return Object.prototype.toString; },
+  function () { return JSON.stringify; }, function () { return clearTimeout; }, function () { return Buffer.from; },
   // re-entrant: conversions and callbacks that change the objects under operation
   function () { return { toString: function () { __shrink(); return "a"; } }; },
   function () { return { toString: function () { __grow(); return "a"; } }; },
@@ -157,6 +173,29 @@ function __walk(name, obj, depth) {
   __add("process.env.[[Has]]", "call", function (k) { return k in process.env; });
   __add("process.env.[[OwnKeys]]", "call", function () { return Object.keys(process.env).length + JSON.stringify(process.env).length; });
   __add("process.env.[[DefineOwnProperty]]", "call", function (k, v) { return Object.defineProperty(process.env, k, { value: v, configurable: true, enumerable: true, writable: true }); });
+  // an array that is expensive to copy or walk (length 2^32-1): only handed to functions that must not look inside
+  // foreign objects (a function that legitimately walks its argument would take time proportional to that length)
+  __add("hugeArray.clear", "call", function () {
+    var a = []; a.length = 4294967295;
+    clearTimeout(a); clearInterval(a); clearImmediate(a); return 1;
+  });
+  // a script may replace what the library looks up at call time: the library must survive that (restored afterwards)
+  __add("tamper.util.format", "call", function (v, a, b) {
+    var old = __util.format; __util.format = v;
+    try { console.log(a, b); console.error("%s", a); console.warn(); } finally { __util.format = old; }
+  });
+  __add("tamper.Object.entries", "call", function (v, rec) {
+    var old = Object.entries; Object.entries = v;
+    try { return new URLSearchParams(rec === undefined ? { a: 1, b: 2 } : rec).toString(); } finally { Object.entries = old; }
+  });
+  __add("tamper.JSON.stringify", "call", function (v, a) {
+    var old = JSON.stringify; JSON.stringify = v;
+    try { return __util.format("%j %j", a, { x: 1 }); } finally { JSON.stringify = old; }
+  });
+  __add("tamper.Buffer.prototype.toString", "call", function (v) {
+    var old = Buffer.prototype.toString; Buffer.prototype.toString = v;
+    try { var b = Buffer.from("abc"); return String(b) + b.equals(b) + __util.format("%s", b); } finally { Buffer.prototype.toString = old; }
+  });
 })();
 function __proper(tname, t) {
   if (tname.indexOf("Buffer.prototype.") >= 0) return Buffer.from([1, 2, 3, 4, 5, 6, 7, 8, 9, 250, 251, 252, 253, 254, 255, 0]);
@@ -323,6 +362,8 @@ func (f *fuzzer) exec(c ccase) string {
 	ok := f.loop.RunOnLoop(func(vm *goja.Runtime) {
 		defer func() {
 			if r := recover(); r != nil {
+				// where it happened goes to stderr (the check quotes the harness's stderr in its report)
+				fmt.Fprintf(os.Stderr, "panic: %v\n%s\n", r, debug.Stack())
 				resCh <- "PANIC " + strings.ReplaceAll(fmt.Sprint(r), "\n", " ")
 			}
 		}()
@@ -379,7 +420,7 @@ func (f *fuzzer) emit(c ccase) string {
 	return res
 }
 
-var families = []string{"Buffer", "URLSearchParams", "URL.", "Timeout|Interval|Immediate", "util|console|process|require"}
+var families = []string{"Buffer", "URLSearchParams", "URL.", "Timeout|Interval|Immediate", "util|console|process|require|tamper"}
 
 func inFamily(name, fam string) bool {
 	for _, p := range strings.Split(fam, "|") {
@@ -388,6 +429,25 @@ func inFamily(name, fam string) bool {
 		}
 	}
 	return false
+}
+
+func (f *fuzzer) hostRestart() {
+	fmt.Fprintf(f.w, "#C09JSON {\"steps\":[{\"t\":\"host.Terminate+Start\",\"this\":-1,\"args\":[]}],\"adv\":0}\n")
+	f.w.Flush()
+	done := make(chan struct{})
+	go func() { f.loop.Terminate(); f.loop.Start(); close(done) }()
+	res := "ok"
+	select {
+	case <-done:
+	case <-time.After(f.timeout):
+		res = "HANG"
+	}
+	fmt.Fprintf(f.w, "C09 host.Terminate+Start:-1:- => %s\n", res)
+	f.st.Hit("host:terminate+start")
+	if res != "ok" {
+		f.w.Flush()
+		os.Exit(3)
+	}
 }
 
 // genStep: a fresh random call; most calls of a session stay within one family of targets
@@ -531,6 +591,10 @@ func main() {
 		}
 		f.st.Hit(fmt.Sprintf("session-length:%d", ns))
 		remember(c, f.emit(c))
+		if f.rng.Chance(1) && f.rng.Chance(40) {
+			// the embedding program terminates the loop and starts it again; scripts keep their old handles
+			f.hostRestart()
+		}
 	}
 	if *statsPath != "" {
 		f.st.WriteJSON(*statsPath, map[string]interface{}{"seed": *seed, "targets": len(names), "values": nvals})
